@@ -309,6 +309,46 @@ def rule_peak(ctx):
                         "struck off later come from get_size: for a leaf whose held size differs from "
                         "its raw shape (single-term preprocessing) the surplus stays in the total "
                         "and the reported peak exceeds the tensors that really coexist")
+    # (sensitivity map) the order of the ledger within one step: the result enters, the peak is read while
+    # operands and result coexist, then both operands leave — evaluated symbolically for one step
+    from ..engine.symbolic import Interp, Poly
+    loops = [n for n in f.node.body if isinstance(n, ast.For) and "traverse" in C.unparse(n.iter)]
+    key = ctx.key(f, "C03-PEAK", "step-order")
+    if not loops or not (isinstance(loops[0].target, ast.Tuple) and len(loops[0].target.elts) == 3):
+        raise AnalysisError("peak_size: loop over (parent, left, right) not recognised")
+    pn, ln, rn = [dotted(e) for e in loops[0].target.elts]
+    recv = [a.arg for a in f.node.args.args][0]
+    T, P = Poly.sym("T"), Poly.sym("PEAK")
+    sp, sl, sr = Poly.sym("size_p"), Poly.sym("size_l"), Poly.sym("size_r")
+    peakn = None
+    for n in walk_local(loops[0]):
+        if isinstance(n, ast.Assign) and isinstance(n.targets[0], ast.Name) and isinstance(n.value, ast.Call) \
+                and dotted(n.value.func) == "max":
+            peakn = n.targets[0].id
+    C.require(peakn is not None, "peak_size: running maximum not recognised")
+    env = {acc: T, peakn: P, f"{recv}.get_size({pn})": sp, f"{recv}.get_size({ln})": sl, f"{recv}.get_size({rn})": sr}
+    it = Interp(env=env)
+    body = list(loops[0].body)
+    final_env = dict(env)
+    # straight-line: run statement by statement on one environment
+    ok_form = all(isinstance(st, (ast.Assign, ast.AugAssign, ast.Expr)) for st in body)
+    if not ok_form:
+        r.exempt(key, C.loc(f, loops[0]), "the step is not straight-line: order of the ledger not decided")
+    else:
+        sets = {}
+        for st in body:
+            it._stmt(st, final_env, sets, [], [])
+        want_peak = Poly.sym("max(" + ", ".join(sorted([repr(P), repr(T + sp)])) + ")")
+        probs = []
+        if final_env.get(peakn) != want_peak:
+            probs.append(f"the peak becomes {final_env.get(peakn)}, expected max(peak, total + size(result)): it must be read "
+                         f"while the operands and the result coexist")
+        if final_env.get(acc) != T + sp - sl - sr:
+            probs.append(f"after a step the running total is {final_env.get(acc)}, expected total + size(result) - size(left) - size(right)")
+        if probs:
+            r.violation(key, C.loc(f, loops[0]), "; ".join(probs))
+        else:
+            r.ok(key, C.loc(f, loops[0]), "per step: result enters, peak = max(peak, total), both operands leave")
     return r
 
 
